@@ -173,6 +173,10 @@ type vc14Case struct {
 	KnownNode bool   `json:"known_node"` // the DID store holds a document with a NutsComm service (Configure then does not assume a new node)
 	NodeDID   bool   `json:"node_did"`
 	Bootstrap bool   `json:"bootstrap"`
+	// storage error at start-up: the FaultN-th store operation (read of the shelf, or begin of a write on it) on the job shelf
+	// of subscriber FaultSub fails once while the node starts ("" = none)
+	FaultSub string `json:"fault_sub,omitempty"`
+	FaultN   int    `json:"fault_n,omitempty"`
 }
 
 func (c vc14Case) situation() string {
@@ -230,6 +234,9 @@ type vc14Outcome struct {
 	calls         map[string]int // second life: harness subscriber|tx -> calls
 	natsAttempts  int
 	startErr      string
+	faultFired    bool
+	// a start that was refused because of the storage error is followed by a clean start on the same file
+	refusedErr string
 }
 
 // vc14Run performs one case. A non-nil error is machinery trouble (never a verdict).
@@ -337,6 +344,17 @@ func vc14Run(t *testing.T, gate *vc14Gate, dir string, seq int, c vc14Case) (*vc
 		cancel()
 	}()
 	out := &vc14Outcome{calls: map[string]int{}}
+	var mu sync.Mutex
+	evs := &vc14Events{}
+	// startNode is one life of the real Network engine on the file; faulty = with the planned storage error
+	startNode := func(faulty bool) (startErr string, before map[string]map[string]int, failure error) {
+	var nodeStore stoabs.KVStore = store2
+	var kv2 *fault.KV
+	if faulty {
+		kv2 = fault.Wrap(store2)
+		kv2.NumberReads(true)
+		nodeStore = kv2
+	}
 	cfg := DefaultConfig()
 	cfg.GrpcAddr = "" // outbound only
 	cfg.EnableDiscovery = false
@@ -353,16 +371,14 @@ func vc14Run(t *testing.T, gate *vc14Gate, dir string, seq int, c vc14Case) (*vc
 		other := did.MustParseDID("did:nuts:SomeOtherVendor")
 		docs.docs = []did.Document{{ID: other, Service: []did.Service{{ID: ssi.MustParseURI(other.String() + "#nc"), Type: transport.NutsCommServiceType, ServiceEndpoint: "grpc://other.example:5555"}}}}
 	}
-	evs := &vc14Events{}
-	n := NewNetworkInstance(cfg, docs, nutsCrypto.NewMemoryCryptoInstance(t), evs, &storage.StaticKVStoreProvider{Store: store2}, nil)
+	n := NewNetworkInstance(cfg, docs, nutsCrypto.NewMemoryCryptoInstance(t), evs, &storage.StaticKVStoreProvider{Store: nodeStore}, nil)
 	if err := n.Configure(core.ServerConfig{DIDMethods: []string{"nuts"}, Datadir: filepath.Dir(path)}); err != nil {
-		return nil, fmt.Errorf("second life: Configure: %w", err)
+		return "", nil, fmt.Errorf("second life: Configure: %w", err)
 	}
 	defer func() { _ = n.Shutdown() }()
 	if n.assumeNewNode == c.KnownNode {
-		return nil, fmt.Errorf("harness: Configure derived assumeNewNode=%v for known_node=%v", n.assumeNewNode, c.KnownNode)
+		return "", nil, fmt.Errorf("harness: Configure derived assumeNewNode=%v for known_node=%v", n.assumeNewNode, c.KnownNode)
 	}
-	var mu sync.Mutex
 	for _, sp := range vc14Subs {
 		if !sp.harness {
 			continue
@@ -375,15 +391,43 @@ func vc14Run(t *testing.T, gate *vc14Gate, dir string, seq int, c vc14Case) (*vc
 			return true, nil
 		}, n.WithPersistency(), WithSelectionFilter(sp.filter))
 		if err != nil {
-			return nil, fmt.Errorf("second life: Subscribe: %w", err)
+			return "", nil, fmt.Errorf("second life: Subscribe: %w", err)
 		}
 	}
-	out.before = vc14Jobs(store2, names)
+	before = vc14Jobs(store2, names)
+	if faulty {
+		shelf, seen := "_"+c.FaultSub+"_jobs", 0
+		kv2.ArmWhen(fault.Error, func(s fault.Step) bool {
+			if s.Shelf != shelf || (s.Kind != fault.ReadOp && s.Kind != fault.Begin) {
+				return false
+			}
+			seen++
+			return seen == c.FaultN
+		})
+	}
 	if err := n.Start(); err != nil {
-		out.startErr = err.Error()
+		startErr = err.Error()
 	}
 	if err := gate.await(func(loops, live, parked int) bool { return loops-orphans <= 0 && live <= 0 }); err != nil {
-		return nil, err
+		return "", nil, err
+	}
+	if faulty {
+		out.faultFired, _ = kv2.Fired()
+	}
+	return startErr, before, nil
+	}
+	startErr, before, failure := startNode(c.FaultSub != "")
+	if failure != nil {
+		return nil, failure
+	}
+	out.startErr, out.before = startErr, before
+	if c.FaultSub != "" && startErr != "" {
+		// the node refused to start: the operator starts it again (no storage error this time)
+		// (the jobs stored before the REFUSED start are what must have been attempted in the end; calls of both starts count)
+		out.refusedErr = startErr
+		if out.startErr, _, failure = startNode(false); failure != nil {
+			return nil, failure
+		}
 	}
 	out.after = vc14Jobs(store2, names)
 	evs.mu.Lock()
@@ -449,7 +493,10 @@ func TestVerifC14Start(t *testing.T) {
 		"for a retry}; second life = the real Network engine (NewNetworkInstance, Configure, Subscribe(WithPersistency), Start) on the same file x node " +
 		"situation {DID store with / without a NutsComm document (Configure derives assumeNewNode), node DID set / unset, bootstrap nodes some / none}; " +
 		"every job stored for a registered persistent subscriber at start must have been attempted once the started node is quiescent; a case is one " +
-		"(crash, situation) pair")
+		"(crash, situation) pair. Plus a storage error at start-up: x every subscriber x the 1st, 2nd, 3rd store operation on that subscriber's job " +
+		"shelf (the listing of Run, the read of the first event, the first write) fails once while Network.Start runs (fault.KV around the node's " +
+		"store, step chosen by shelf name); if Start returns nil every OTHER subscriber's stored job must have been attempted; if Start refuses, the " +
+		"node is started again without a fault and then every job stored before the refused start must have been attempted")
 	r.Assume("NATS is down (the product's nats subscriber fails and is counted), no peer is reachable, TLS off; retry delays are zero (overlaid retry-go)")
 	var rc vc14Case
 	replay := r.ReplayCase(&rc)
@@ -474,8 +521,17 @@ func TestVerifC14Start(t *testing.T) {
 		for _, known := range []bool{false, true} {
 			for _, nd := range []bool{false, true} {
 				for _, bs := range []bool{false, true} {
-					cases = append(cases, vc14Case{crash, known, nd, bs})
+					cases = append(cases, vc14Case{Crash: crash, KnownNode: known, NodeDID: nd, Bootstrap: bs})
 				}
+			}
+		}
+	}
+	// a storage error on ONE subscriber's job shelf while the node starts (the listing of Run, the read of the first event,
+	// the first write on the shelf), for every subscriber
+	for _, crash := range []string{"commit-notify-pub", "commit-notify-priv", "during-retries"} {
+		for _, sp := range vc14Subs {
+			for n := 1; n <= 3; n++ {
+				cases = append(cases, vc14Case{Crash: crash, KnownNode: true, NodeDID: true, FaultSub: sp.name, FaultN: n})
 			}
 		}
 	}
@@ -503,7 +559,18 @@ func TestVerifC14Start(t *testing.T) {
 			r.Observation("start-case-skipped", map[string]any{"case": c, "reason": last.Error()})
 			continue
 		}
+		if c.FaultSub != "" && !out.faultFired {
+			r.Eval("") // that subscriber's shelf is not used that often in this start: nothing failed
+			r.Outcome("start-up storage error: step not reached")
+			continue
+		}
 		r.Eval(ev.Key(c))
+		if out.refusedErr != "" {
+			r.Observation("network-start-refused-after-storage-error-on-one-subscribers-shelf", map[string]any{"case": c, "error": out.refusedErr})
+			r.Outcome("start-up storage error: start refused, started again")
+		} else if c.FaultSub != "" {
+			r.Outcome("start-up storage error: node started")
+		}
 		if out.startErr != "" {
 			r.Observation("network-start-returned-error", map[string]any{"case": c, "error": out.startErr})
 		}
@@ -528,7 +595,25 @@ func TestVerifC14Start(t *testing.T) {
 					resumed++
 					continue
 				}
-				r.Violation("C14|product-start|pending-event-not-resumed|"+c.Crash+"|"+c.situation(),
+				sigTail := c.Crash + "|" + c.situation()
+				if c.FaultSub == sp.name && out.refusedErr == "" {
+					// the node started although this subscriber's own shelf answered with an error: what becomes of ITS job is a
+					// storage-error matter outside the statement (the ledger part judges first-delivery storage errors); the
+					// demand here is that the OTHER subscribers are resumed
+					r.Observation("job-of-the-subscriber-whose-shelf-failed-at-start-not-attempted", c)
+					continue
+				}
+				if c.FaultSub != "" {
+					whose := "another-subscribers-shelf"
+					if c.FaultSub == sp.name {
+						whose = "own-shelf"
+					}
+					sigTail = c.Crash + "|storage-error-at-start|" + whose
+					if out.refusedErr != "" {
+						sigTail += "|after-refused-start"
+					}
+				}
+				r.Violation("C14|product-start|pending-event-not-resumed|"+sigTail,
 					fmt.Sprintf("job of subscriber %q for %s with %d persisted tries is stored when the node starts; after Network.Start and quiescence it is still stored with %d tries and was never attempted (start error: %q)",
 						sp.name, tx, tries, after, out.startErr), c)
 			}
